@@ -577,6 +577,10 @@ func (t *diskTrack) saveKeyframe(p *rtp.Packet) {
 			return
 		}
 	}
+	if len(t.savedKf) >= 64 {
+		// keyframes that never complete
+		t.savedKf = t.savedKf[1:]
+	}
 	t.savedKf = append(t.savedKf, p)
 }
 
@@ -587,12 +591,19 @@ func (t *diskTrack) saveKeyframe(p *rtp.Packet) {
 // Called locked.
 func (t *diskTrack) getKeyframe(ts uint32) *rtp.Packet {
 	var kf *rtp.Packet
-	n := 0
 	for _, q := range t.savedKf {
 		if q.Timestamp == ts {
 			kf = q
+			break
 		}
-		if int32(q.Timestamp-ts) >= 0 {
+	}
+	if kf == nil {
+		return nil
+	}
+	// compare sequence numbers, timestamps may jump
+	n := 0
+	for _, q := range t.savedKf {
+		if ((q.SequenceNumber - kf.SequenceNumber) & 0x8000) == 0 {
 			t.savedKf[n] = q
 			n++
 		}
